@@ -58,6 +58,16 @@ import (
 	"verifharness/internal/wire"
 )
 
+var tmpDirs []string
+
+// cleanupTmp removes what the +http settings wrote (config / values files for the file watcher).
+func cleanupTmp() {
+	for _, d := range tmpDirs {
+		os.RemoveAll(d)
+	}
+	tmpDirs = nil
+}
+
 func repoDir() string {
 	if d := os.Getenv("VERIF_REPO"); d != "" {
 		return d
@@ -125,6 +135,9 @@ var settings = []setting{
 		"values.global.proxy.lifecycle.preStop.exec.command[0]=/bin/true", "values.global.proxy.privileged=true",
 		"values.global.proxy.enableCoreDump=true"}},
 	{name: "compat", flags: []string{"compatibilityVersion=1.27"}},
+	{name: "values-misc2", flags: []string{"revision=canary", "values.global.caAddress=ca.example:15012", "values.global.sts.servicePort=15463",
+		"values.global.proxy.outlierLogPath=/dev/stdout", "values.global.nativeNftables=true",
+		"values.global.proxy.includeOutboundPorts=80,443", "values.global.proxy.tracer=datadog", "values.global.imagePullSecrets[0]=regcred-values"}},
 	{name: "mesh-misc", flags: []string{"values.global.imagePullPolicy=Always", "values.global.proxy.image=proxyTest"}, mesh: func(m *meshconfig.MeshConfig) {
 		m.DefaultConfig.Tracing = &meshconfig.Tracing{}
 		m.InboundTrafficPolicy = &meshconfig.MeshConfig_InboundTrafficPolicy{Mode: meshconfig.MeshConfig_InboundTrafficPolicy_LOCALHOST}
@@ -140,6 +153,7 @@ type loaded struct {
 	pathEnvs   map[string]string // the variables the inject URL path stands for (stated by the harness)
 	defaulting bool
 	mux        *http.ServeMux // +http: admissions go through the HTTP handler of a Webhook built by NewWebhook
+	v1beta1    bool           // +http1b: ... as admission.k8s.io/v1beta1 AdmissionReview documents
 	err        error          // a rendering that failed is remembered (and reported), not retried per case
 }
 
@@ -227,6 +241,8 @@ func loadSetting(name string) (*loaded, error) {
 				l.defaulting = true
 			case "http":
 				http = true
+			case "http1b":
+				http, l.v1beta1 = true, true
 			case "alias":
 				cfg.Aliases = map[string][]string{"myalias": {inject.SidecarTemplateName}}
 			case "ia":
@@ -263,7 +279,7 @@ func loadSetting(name string) (*loaded, error) {
 	var files []string
 	for _, f := range st.files {
 		if f == "@chart-sel" {
-			tmp := filepath.Join(os.TempDir(), fmt.Sprintf("verif-c19-chart-sel-%d.yaml", os.Getpid()))
+			tmp := filepath.Join(".", fmt.Sprintf("verif-c19-chart-sel-%d.yaml", os.Getpid()))
 			if err := os.WriteFile(tmp, []byte(chartSelIOP), 0o644); err != nil {
 				return nil, err
 			}
@@ -287,7 +303,7 @@ func loadSetting(name string) (*loaded, error) {
 	var mc *meshconfig.MeshConfig
 	for _, object := range manifests {
 		for _, o := range object.Manifests {
-			if o.GetName() == "istio-sidecar-injector" && o.GetKind() == gvk.ConfigMap.Kind {
+			if (o.GetName() == "istio-sidecar-injector" || o.GetName() == "istio-sidecar-injector-canary") && o.GetKind() == gvk.ConfigMap.Kind {
 				data, _ := o.Object["data"].(map[string]any)
 				rawConfig, _ := data["config"].(string)
 				vs, _ := data["values"].(string)
@@ -301,7 +317,7 @@ func loadSetting(name string) (*loaded, error) {
 					return fail(err)
 				}
 				cfg = &c
-			} else if o.GetName() == "istio" && o.GetKind() == gvk.ConfigMap.Kind {
+			} else if (o.GetName() == "istio" || o.GetName() == "istio-canary") && o.GetKind() == gvk.ConfigMap.Kind {
 				data, _ := o.Object["data"].(map[string]any)
 				meshdata, _ := data["mesh"].(string)
 				m, err := mesh.ApplyMeshConfig(meshdata, mesh.DefaultMeshConfig())
@@ -471,10 +487,11 @@ type run struct {
 // newHTTPWebhook builds the webhook the way istiod does: NewWebhook over a file watcher (config and values files), so that
 // updateConfig parses them, and registers serveInject on a mux; admissions are then POSTed as AdmissionReview documents.
 func newHTTPWebhook(l *loaded, cfg *inject.Config, values inject.ValuesConfig, mc *meshconfig.MeshConfig) error {
-	dir, err := os.MkdirTemp("", "verif-c19-wh")
+	dir, err := os.MkdirTemp(".", "verif-c19-wh") // in the work directory of the check, removed when the harness ends
 	if err != nil {
 		return err
 	}
+	tmpDirs = append(tmpDirs, dir)
 	configBytes, err := yaml.Marshal(cfg)
 	if err != nil {
 		return err
@@ -520,6 +537,9 @@ func admitHTTP(l *loaded, podJSON []byte, ns string) (patch []byte, message stri
 			Object: runtime.RawExtension{Raw: podJSON},
 		},
 	}
+	if l.v1beta1 {
+		review.APIVersion = "admission.k8s.io/v1beta1"
+	}
 	body, err := json.Marshal(review)
 	if err != nil {
 		return nil, "", err
@@ -541,6 +561,9 @@ func admitHTTP(l *loaded, podJSON []byte, ns string) (patch []byte, message stri
 	}
 	if out.Response == nil {
 		return nil, "", fmt.Errorf("response without a response")
+	}
+	if want := review.APIVersion; out.APIVersion != want {
+		return nil, "", fmt.Errorf("response apiVersion %q for a %q request", out.APIVersion, want)
 	}
 	if out.Response.UID != "verif" {
 		return nil, "", fmt.Errorf("response for uid %q", out.Response.UID)
@@ -820,6 +843,19 @@ func runOp(toks []string) *run {
 		r := runPod(toks[1], pod, wire.Dec(toks[2]))
 		r.kind = "pod"
 		return r
+	case "redecide-kube": // redecide-kube <rendering> <kind> <workload ns> <pod json> <change>
+		if len(toks) != 6 {
+			return &run{status: "unloadable", detail: "bad op"}
+		}
+		pod := &corev1.Pod{}
+		if err := json.Unmarshal([]byte(wire.Dec(toks[4])), pod); err != nil {
+			return &run{status: "unloadable", detail: err.Error()}
+		}
+		r := runRedecideKube(toks[1], toks[2], wire.Dec(toks[3]), pod, toks[5])
+		if r.kind == "" {
+			r.kind = "kubeinject"
+		}
+		return r
 	case "redecide": // redecide <setting> <request ns> <pod json> <change>
 		// The pod is injected for real; the INJECTED pod (status annotation, sidecar and all) is then changed so that the
 		// documented decision becomes "never", and admitted again: the decision must not look at anything but its inputs.
@@ -970,6 +1006,100 @@ func runKubeInjectPod(settingName, wrap, wlNS string, pod *corev1.Pod) *run {
 		return &run{status: "unloadable", detail: "unknown wrap " + wrap}
 	}
 	return runKubeInjectObjectVia(settingName, obj, via)
+}
+
+// podTemplateRef: the metadata and spec of the pods of a workload object (the documented place for labels / annotations).
+func podTemplateRef(obj runtime.Object) (*metav1.ObjectMeta, *corev1.PodSpec) {
+	switch o := obj.(type) {
+	case *corev1.Pod:
+		return &o.ObjectMeta, &o.Spec
+	case *appsv1.Deployment:
+		return &o.Spec.Template.ObjectMeta, &o.Spec.Template.Spec
+	case *appsv1.StatefulSet:
+		return &o.Spec.Template.ObjectMeta, &o.Spec.Template.Spec
+	case *appsv1.DaemonSet:
+		return &o.Spec.Template.ObjectMeta, &o.Spec.Template.Spec
+	case *appsv1.ReplicaSet:
+		return &o.Spec.Template.ObjectMeta, &o.Spec.Template.Spec
+	case *batchv1.Job:
+		return &o.Spec.Template.ObjectMeta, &o.Spec.Template.Spec
+	case *batchv1.CronJob:
+		return &o.Spec.JobTemplate.Spec.Template.ObjectMeta, &o.Spec.JobTemplate.Spec.Template.Spec
+	case *corev1.ReplicationController:
+		if o.Spec.Template != nil {
+			return &o.Spec.Template.ObjectMeta, &o.Spec.Template.Spec
+		}
+	case *openshiftv1.DeploymentConfig:
+		if o.Spec.Template != nil {
+			return &o.Spec.Template.ObjectMeta, &o.Spec.Template.Spec
+		}
+	}
+	return nil, nil
+}
+
+// runRedecideKube: the workload is injected by kube-inject for real; the INJECTED workload is changed so that the documented
+// decision is "never" and handed to kube-inject again - it must come back unchanged.
+func runRedecideKube(settingName, kind, wlNS string, pod *corev1.Pod, change string) *run {
+	l, err := loadSetting(settingName)
+	if err != nil {
+		return &run{status: "unloadable", detail: err.Error()}
+	}
+	obj := wrapPod(kind, wlNS, pod)
+	if obj == nil {
+		return &run{status: "unloadable", detail: "unknown kind " + kind}
+	}
+	prev := features.EnableNativeSidecars
+	features.EnableNativeSidecars = features.NativeSidecarModeDisabled
+	if l.native {
+		features.EnableNativeSidecars = features.NativeSidecarModeEnabled
+	}
+	wc := l.wh.GetConfig()
+	var first runtime.Object
+	func() {
+		defer func() {
+			features.EnableNativeSidecars = prev
+			_ = recover()
+		}()
+		out, err := inject.IntoObject(nil, wc.Templates, wc.Values, "", wc.MeshConfig, obj, func(string) {})
+		if err == nil {
+			first, _ = out.(runtime.Object)
+		}
+	}()
+	if first == nil {
+		return &run{status: "na", detail: "first kube-inject refused", l: l}
+	}
+	inner := unwrapList(first)
+	meta, spec := podTemplateRef(inner)
+	if meta == nil {
+		return &run{status: "unloadable", detail: "no pod template"}
+	}
+	if _, injected := templateOf(inner).Annotations[annotation.SidecarStatus.Name]; !injected {
+		return &run{status: "na", detail: "first kube-inject skipped", l: l}
+	}
+	switch change {
+	case "label-false":
+		if meta.Labels == nil {
+			meta.Labels = map[string]string{}
+		}
+		meta.Labels["sidecar.istio.io/inject"] = "false"
+	case "annotation-false":
+		delete(meta.Labels, "sidecar.istio.io/inject")
+		if meta.Annotations == nil {
+			meta.Annotations = map[string]string{}
+		}
+		meta.Annotations["sidecar.istio.io/inject"] = "false"
+	case "namespace-ignored":
+		meta.Namespace = "kube-system"
+	case "host-network":
+		spec.HostNetwork = true
+	default:
+		return &run{status: "unloadable", detail: "unknown change"}
+	}
+	if lst, ok := first.(*corev1.List); ok { // keep the raw form of the item in step with the object
+		raw, _ := json.Marshal(inner)
+		lst.Items[0] = runtime.RawExtension{Raw: raw}
+	}
+	return runKubeInjectObjectVia(settingName, first, "direct")
 }
 
 // unwrapList returns the single workload inside a List (as an object), else the object itself.
@@ -1167,6 +1297,7 @@ func writePod(o *wire.Out, which string, pod *corev1.Pod) {
 }
 
 func execInject(in, out string) {
+	defer cleanupTmp()
 	o := wire.Create(out)
 	defer o.Close()
 	for _, toks := range wire.ReadLines(in) {
@@ -1182,6 +1313,9 @@ func execInject(in, out string) {
 		if toks[0] == "kubeinject-pod" && len(toks) == 5 {
 			src = []string{"kubeinject-pod", toks[1], toks[2], toks[3], "json:" + digest(toks[4])}
 		}
+		if toks[0] == "redecide-kube" && len(toks) == 6 {
+			src = []string{"redecide-kube", toks[1], toks[2], toks[3], "json:" + digest(toks[4]), toks[5]}
+		}
 		if toks[0] == "redecide" && len(toks) == 5 {
 			src = []string{"redecide", toks[1], toks[2], "json:" + digest(toks[3]), toks[4]}
 		}
@@ -1190,6 +1324,7 @@ func execInject(in, out string) {
 			writeDecisionInputs(o, decisionInputs(r))
 			o.Line("refusal", refusalExpectation(r))
 			o.Line("feat", wire.EncList(features_(r)))
+			o.Line("row", callSite(r, toks[0]), fmt.Sprint(abstractRowOf(decisionInputs(r)).idx()))
 		}
 		if r.orig != nil && r.status != "unloadable" {
 			writePod(o, "orig", r.orig)
@@ -1208,6 +1343,21 @@ func execInject(in, out string) {
 		o.Line("check")
 		o.Flush()
 	}
+}
+
+// callSite names the code path through which the decision of this case is taken.
+func callSite(r *run, op string) string {
+	switch {
+	case r.kind == "kubeinject" && r.via == "file":
+		return "kube-inject-IntoResourceFile"
+	case r.kind == "kubeinject" && r.via == "injector":
+		return "kube-inject-with-injector"
+	case r.kind == "kubeinject":
+		return "kube-inject-IntoObject"
+	case r.l != nil && r.l.mux != nil:
+		return "webhook-http-handler"
+	}
+	return "webhook-inject"
 }
 
 // features_ names what this case exercises (coverage counters in the evidence).
@@ -1405,6 +1555,13 @@ func refusalExpectation(r *run) string {
 			if !known[x] {
 				return "must"
 			}
+		}
+	}
+	// templates of the injector's map that render Gateway deployments, not pods: naming them on a pod is refused
+	for _, n := range names {
+		switch n {
+		case "waypoint", "kube-gateway", "agentgateway", "agentgateway-waypoint":
+			return "must"
 		}
 	}
 	for k, bad := range invalidAnnotationValues {
@@ -1627,6 +1784,9 @@ func verdictOf(r *run) string {
 			return v
 		}
 	}
+	if v := statusFields(r); v != "" {
+		return v
+	}
 	if v := networkExpectation(r); v != "" {
 		return v
 	}
@@ -1677,6 +1837,40 @@ func networkExpectation(r *run) string {
 		}
 		if n > 1 || env != want {
 			return "FAIL network-env " + wire.Enc(fmt.Sprintf("ISTIO_META_NETWORK x%d = %q want %q", n, env, want))
+		}
+	}
+	return ""
+}
+
+// statusFields (oracle only): the other fields of the status record - the revision is the injector's ("default" for the
+// webhook of the harness and for kube-inject without one), every image pull secret it lists is on the pod, and every pull
+// secret the pod gained is listed.
+func statusFields(r *run) string {
+	s := statusOf(r.once)
+	if s == nil {
+		return ""
+	}
+	if s.Revision != "default" {
+		return "FAIL status-fields " + wire.Enc(fmt.Sprintf("revision %q", s.Revision))
+	}
+	have, before := map[string]bool{}, map[string]bool{}
+	for _, p := range r.once.Spec.ImagePullSecrets {
+		have[p.Name] = true
+	}
+	for _, p := range r.orig.Spec.ImagePullSecrets {
+		before[p.Name] = true
+	}
+	listed := names(s.ImagePullSecrets)
+	for n := range listed {
+		if !have[n] {
+			return "FAIL status-fields " + wire.Enc("lists image pull secret "+n+" which is not on the pod")
+		}
+	}
+	if so := statusOf(r.orig); so == nil {
+		for n := range have {
+			if !before[n] && !listed[n] {
+				return "FAIL status-fields " + wire.Enc("image pull secret "+n+" was added but is not recorded")
+			}
 		}
 	}
 	return ""
@@ -1737,42 +1931,64 @@ func hasTemplate(r *run, name string) bool {
 	return strings.TrimSpace(a) == name
 }
 
-// knownClass classifies a difference between once and twice as one of the known findings, exactly:
-//   F10e podports  - the pod customises the sidecar with a container (or recorded override) named istio-proxy that
-//                    declares ports, and the pods differ in nothing but the value of the sidecar's ISTIO_META_POD_PORTS;
-//   F10g env order - the injector was given cluster / network variables (values.global.multiCluster.clusterName,
-//                    values.global.network, an inject URL path or the pod's topology.istio.io/network label) and the
-//                    pods differ in nothing but the POSITION of ISTIO_META_CLUSTER_ID / ISTIO_META_NETWORK in the sidecar's
-//                    env list (all other variables equal as an ordered list).
-// A pod in both classes is reported under the first.
+// knownClass classifies a difference between once and twice as one of the known findings by PREDICTING the second pod:
+//
+//	F10e podports  - the pod customises the sidecar with a container (or recorded override) named istio-proxy that
+//	                 declares ports. Predicted: everything equal except the value of the sidecar's ISTIO_META_POD_PORTS, and
+//	                 there: the ports of the application containers are the same multiset; the first list additionally has
+//	                 exactly the ports of the user's istio-proxy if that is a regular container of the pod (else of an
+//	                 overrides entry under `containers`), the second exactly the ports of the entry the first injection
+//	                 recorded under `containers` (none when the sidecar is a native sidecar: the user's port disappears).
+//	F10g env order - the injector was given cluster / network variables (values.global.multiCluster.clusterName,
+//	                 values.global.network, an inject URL path or the pod's topology.istio.io/network label). Predicted: the
+//	                 sidecar's env list of the second pod is the first list with these variables taken out and re-appended,
+//	                 sorted by name, at the END (which is what updateClusterEnvs does); variables the user's own istio-proxy
+//	                 customisation supplies may sit anywhere (the strategic merge aligns them against the hole), nothing else
+//	                 moves or changes.
+//
+// A pod in both classes is reported under the first. Anything the prediction does not produce is a violation.
 func knownClass(r *run) string {
 	if r.once == nil || r.twice == nil {
 		return ""
 	}
-	userPorts := false
-	// variables whose position the removal / re-append of the cluster variables shifts: the two cluster variables and the
-	// variables the user's own istio-proxy customisation adds (the merge aligns them against the hole the removal leaves)
-	movable := map[string]bool{"ISTIO_META_CLUSTER_ID": true, "ISTIO_META_NETWORK": true}
-	if r.l != nil {
-		for k := range r.l.pathEnvs { // every variable of the URL path is removed and re-appended by updateClusterEnvs
-			movable[k] = true
-		}
-	}
+	var userPortList []corev1.ContainerPort // any ports the user's customisation declares (class membership)
+	userEnv := map[string]bool{}
 	userProxy := func(c corev1.Container) {
 		if c.Name != inject.ProxyContainerName {
 			return
 		}
-		if len(c.Ports) > 0 {
-			userPorts = true
-		}
+		userPortList = append(userPortList, c.Ports...)
 		for _, e := range c.Env {
-			movable[e.Name] = true
+			userEnv[e.Name] = true
 		}
 	}
-	for _, c := range append(append([]corev1.Container{}, r.orig.Spec.Containers...), r.orig.Spec.InitContainers...) {
-		userProxy(c)
+	overridePorts := func(p *corev1.Pod) []corev1.ContainerPort { // ports of an istio-proxy entry recorded under `containers`
+		var pc inject.ParsedContainers
+		if json.Unmarshal([]byte(p.Annotations[annotation.ProxyOverrides.Name]), &pc) == nil {
+			for _, c := range pc.Containers {
+				if c.Name == inject.ProxyContainerName {
+					return c.Ports
+				}
+			}
+		}
+		return nil
 	}
-	if ov, ok := r.orig.Annotations[annotation.ProxyOverrides.Name]; ok {
+	// What the template sees (ISTIO_META_POD_PORTS ranges over the REGULAR containers of the pod it is handed):
+	// first injection - the user's istio-proxy if it is a regular container of the pod, else an entry re-inserted from an
+	// overrides annotation's `containers` list; second injection - the injected sidecar is stripped and the entry the first
+	// injection recorded under `containers` is re-inserted.
+	var firstPorts []corev1.ContainerPort
+	regular := false
+	for _, c := range r.orig.Spec.Containers {
+		if c.Name == inject.ProxyContainerName {
+			firstPorts, regular = c.Ports, true
+		}
+	}
+	if !regular {
+		firstPorts = overridePorts(r.orig)
+	}
+	secondPorts := overridePorts(r.once)
+	if ov, ok := r.orig.Annotations[annotation.ProxyOverrides.Name]; ok { // a recorded override wins over the container
 		var pc inject.ParsedContainers
 		if json.Unmarshal([]byte(ov), &pc) == nil {
 			for _, c := range pc.AllContainers() {
@@ -1780,54 +1996,199 @@ func knownClass(r *run) string {
 			}
 		}
 	}
-	clusterVars := false
+	for _, c := range append(append([]corev1.Container{}, r.orig.Spec.Containers...), r.orig.Spec.InitContainers...) {
+		userProxy(c)
+	}
+	// the cluster variables this admission is given, as the harness states them
+	cv := map[string]bool{}
 	if r.l != nil {
 		g := r.l.wh.GetConfig().Values.Struct().GetGlobal()
-		_, netLabel := r.orig.Labels["topology.istio.io/network"]
-		clusterVars = (r.kind != "kubeinject" && r.l.path != "") || g.GetNetwork() != "" || g.GetMultiCluster().GetClusterName() != "" || netLabel
+		if g.GetMultiCluster().GetClusterName() != "" {
+			cv["ISTIO_META_CLUSTER_ID"] = true
+		}
+		if g.GetNetwork() != "" {
+			cv["ISTIO_META_NETWORK"] = true
+		}
+		if _, netLabel := r.orig.Labels["topology.istio.io/network"]; netLabel {
+			cv["ISTIO_META_NETWORK"] = true
+		}
+		if r.kind != "kubeinject" {
+			for k := range r.l.pathEnvs {
+				cv[k] = true
+			}
+		}
 	}
-	norm := func(p *corev1.Pod, blankPorts, sortEnv bool) []byte {
+	sidecars := func(p *corev1.Pod) (out []*corev1.Container, native bool) {
+		for i := range p.Spec.Containers {
+			if p.Spec.Containers[i].Name == inject.ProxyContainerName {
+				out = append(out, &p.Spec.Containers[i])
+			}
+		}
+		for i := range p.Spec.InitContainers {
+			if p.Spec.InitContainers[i].Name == inject.ProxyContainerName {
+				out = append(out, &p.Spec.InitContainers[i])
+				native = true
+			}
+		}
+		return
+	}
+	// canonical multiset of the elements of a POD_PORTS value
+	ports := func(v string) (map[string]int, bool) {
+		var l []map[string]any
+		if strings.TrimSpace(v) == "" {
+			return map[string]int{}, true
+		}
+		if json.Unmarshal([]byte(v), &l) != nil {
+			return nil, false
+		}
+		m := map[string]int{}
+		for _, e := range l {
+			b, _ := json.Marshal(e)
+			m[string(b)]++
+		}
+		return m, true
+	}
+	podPorts := func(c *corev1.Container) string {
+		for _, e := range c.Env {
+			if e.Name == "ISTIO_META_POD_PORTS" {
+				return e.Value
+			}
+		}
+		return ""
+	}
+	portsPredicted := func() bool {
+		s1, native := sidecars(r.once)
+		s2, _ := sidecars(r.twice)
+		if len(s1) != 1 || len(s2) != 1 {
+			return false
+		}
+		m1, ok1 := ports(podPorts(s1[0]))
+		m2, ok2 := ports(podPorts(s2[0]))
+		if !ok1 || !ok2 {
+			return false
+		}
+		_ = native
+		// base ports (of the application containers) are equal: take the predicted user ports out of each side
+		take := func(m map[string]int, l []corev1.ContainerPort) bool {
+			for _, p := range l {
+				b, _ := json.Marshal(p)
+				var e map[string]any
+				_ = json.Unmarshal(b, &e)
+				cb, _ := json.Marshal(e)
+				if m[string(cb)] == 0 {
+					return false
+				}
+				m[string(cb)]--
+				if m[string(cb)] == 0 {
+					delete(m, string(cb))
+				}
+			}
+			return true
+		}
+		return take(m1, firstPorts) && take(m2, secondPorts) && reflect.DeepEqual(m1, m2)
+	}
+	// env prediction for F10g: twice (without the user's variables) = once (without the user's and the cluster variables, in
+	// order) ++ the cluster variables sorted by name; the user's variables are the same multiset
+	envPredicted := func(e1, e2 []corev1.EnvVar) bool {
+		var rest1, rest2, cv2, u1, u2 []corev1.EnvVar
+		cvVal1 := map[string]corev1.EnvVar{}
+		for _, e := range e1 {
+			switch {
+			case userEnv[e.Name]:
+				u1 = append(u1, e)
+			case cv[e.Name]:
+				cvVal1[e.Name] = e
+			default:
+				rest1 = append(rest1, e)
+			}
+		}
+		tail := false
+		for _, e := range e2 {
+			switch {
+			case userEnv[e.Name]:
+				u2 = append(u2, e)
+			case cv[e.Name]:
+				cv2 = append(cv2, e)
+				tail = true
+			default:
+				if tail {
+					return false // something follows the re-appended cluster variables
+				}
+				rest2 = append(rest2, e)
+			}
+		}
+		if !reflect.DeepEqual(rest1, rest2) || len(cv2) != len(cvVal1) {
+			return false
+		}
+		for i, e := range cv2 {
+			if i > 0 && cv2[i-1].Name >= e.Name {
+				return false // not sorted
+			}
+			if !reflect.DeepEqual(cvVal1[e.Name], e) {
+				return false
+			}
+		}
+		key := func(l []corev1.EnvVar) []string {
+			var o []string
+			for _, e := range l {
+				b, _ := json.Marshal(e)
+				o = append(o, string(b))
+			}
+			sort.Strings(o)
+			return o
+		}
+		return reflect.DeepEqual(key(u1), key(u2))
+	}
+	// the pods with the parts a class predicts separately taken out
+	strip := func(p *corev1.Pod, blankPorts, dropEnv bool) []byte {
 		q := p.DeepCopy()
-		for _, l := range [][]corev1.Container{q.Spec.Containers, q.Spec.InitContainers} {
-			for i := range l {
-				if l[i].Name != inject.ProxyContainerName {
-					continue
-				}
-				env := l[i].Env
-				if blankPorts {
-					for j := range env {
-						if env[j].Name == "ISTIO_META_POD_PORTS" {
-							env[j].Value = ""
-						}
+		sc, _ := sidecars(q)
+		for _, c := range sc {
+			if blankPorts {
+				for j := range c.Env {
+					if c.Env[j].Name == "ISTIO_META_POD_PORTS" {
+						c.Env[j].Value = ""
 					}
 				}
-				if sortEnv {
-					// F10g key: the movable variables may sit anywhere; everything else has to be equal as an ORDERED list (any
-					// other reorder is a violation). They are taken out and appended sorted. (Checked: updating the cluster
-					// variables in place makes every pod of this class idempotent - one root cause.)
-					var rest, cv []corev1.EnvVar
-					for _, e := range env {
-						if movable[e.Name] {
-							cv = append(cv, e)
-						} else {
-							rest = append(rest, e)
-						}
-					}
-					sort.SliceStable(cv, func(a, b int) bool { return cv[a].Name < cv[b].Name })
-					l[i].Env = append(rest, cv...)
-				}
+			}
+			if dropEnv {
+				c.Env = nil
 			}
 		}
 		b, _ := json.Marshal(q)
 		return b
 	}
-	if userPorts && jsonEqual(norm(r.once, true, false), norm(r.twice, true, false)) {
+	envOK := func(blankPorts bool) bool {
+		p1, p2 := r.once.DeepCopy(), r.twice.DeepCopy()
+		s1, _ := sidecars(p1)
+		s2, _ := sidecars(p2)
+		if len(s1) != 1 || len(s2) != 1 {
+			return false
+		}
+		e1, e2 := s1[0].Env, s2[0].Env
+		if blankPorts {
+			blank := func(l []corev1.EnvVar) []corev1.EnvVar {
+				o := append([]corev1.EnvVar{}, l...)
+				for j := range o {
+					if o[j].Name == "ISTIO_META_POD_PORTS" {
+						o[j].Value = ""
+					}
+				}
+				return o
+			}
+			e1, e2 = blank(e1), blank(e2)
+		}
+		return envPredicted(e1, e2)
+	}
+	userPorts := len(userPortList) > 0
+	clusterVars := len(cv) > 0
+	if userPorts && jsonEqual(strip(r.once, true, false), strip(r.twice, true, false)) && portsPredicted() {
 		return "idempotent-podports-user-proxy-ports"
 	}
-	if clusterVars && jsonEqual(norm(r.once, false, true), norm(r.twice, false, true)) {
+	if clusterVars && jsonEqual(strip(r.once, false, true), strip(r.twice, false, true)) && envOK(false) {
 		return "idempotent-sidecar-env-order-cluster-vars"
 	}
-	if userPorts && clusterVars && jsonEqual(norm(r.once, true, true), norm(r.twice, true, true)) {
+	if userPorts && clusterVars && jsonEqual(strip(r.once, true, true), strip(r.twice, true, true)) && portsPredicted() && envOK(true) {
 		return "idempotent-podports-user-proxy-ports"
 	}
 	return ""
@@ -1892,6 +2253,7 @@ func diffPath(path string, x, y any) string {
 }
 
 func oracleInject(in, out string) {
+	defer cleanupTmp()
 	o := wire.Create(out)
 	defer o.Close()
 	pendingCase := false
@@ -1916,6 +2278,7 @@ func oracleInject(in, out string) {
 }
 
 func dumpInject(in string) {
+	defer cleanupTmp()
 	for _, toks := range wire.ReadLines(in) {
 		if toks[0] == "case" {
 			continue
